@@ -473,12 +473,15 @@ def canonical_tests(tree):
 
 
 class Module:
-    def __init__(self, name, path, relpath, src):
+    def __init__(self, name, path, relpath, src, known=None, keep=frozenset()):
         self.name = name
         self.path = path
         self.relpath = relpath
         self.src = src
-        self.tree = canonical_tests(inline_adjacent_temps(unroll_literal_loops(ast.parse(src, filename=path))))
+        from .inline import inline_new_helpers
+        self.inlined = []      # (qualname of a NEW helper, "stmt" | "expr" | "removed", line): helpers folded back into their callers
+        tree = inline_new_helpers(ast.parse(src, filename=path), known, keep, self.inlined)
+        self.tree = canonical_tests(inline_adjacent_temps(unroll_literal_loops(tree)))
         self.imports = {}      # local name -> (module, attr or None)
         self.star_imports = []
         self._scan_imports()
@@ -518,6 +521,25 @@ class Repo:
         pkgdir = os.path.join(self.root, PKG)
         if not os.path.isdir(pkgdir):
             raise AnalysisError("package directory %s not found" % pkgdir)
+        # functions of the confirmed reference tree: anything else is a NEW function and is folded back into its callers when that is sound
+        known = None
+        if not os.environ.get("VERIF_NO_INLINE"):
+            from .core import load_reference_shapes
+            fr = load_reference_shapes().get("__functions__")
+            if isinstance(fr, dict) and fr:
+                known = set(fr)
+        keep = set()
+        if known is not None:
+            for dirpath, dirnames, filenames in os.walk(pkgdir):
+                for fnm in filenames:
+                    if fnm.endswith(".py"):
+                        try:
+                            with open(os.path.join(dirpath, fnm), encoding="utf-8") as f:
+                                for n in ast.walk(ast.parse(f.read())):
+                                    if isinstance(n, ast.ImportFrom):
+                                        keep.update(a.name for a in n.names)
+                        except SyntaxError:
+                            pass
         for dirpath, dirnames, filenames in os.walk(pkgdir):
             dirnames[:] = sorted(d for d in dirnames if d != "__pycache__")
             for fnm in sorted(filenames):
@@ -531,7 +553,7 @@ class Repo:
                 with open(path, encoding="utf-8") as f:
                     src = f.read()
                 try:
-                    m = Module(modname, path, rel, src)
+                    m = Module(modname, path, rel, src, known, keep)
                 except SyntaxError as e:
                     raise AnalysisError("cannot parse %s: %s" % (rel, e))
                 self.modules[modname] = m
